@@ -68,6 +68,23 @@ func isUnnamed(name string) bool {
 	return len(name) > 0 && name[0] == '#'
 }
 
+// nameOfTypeForError returns the name of the type to be reported with an error
+// found in it. The name of an unnamed type (a rule-set or a shortcut of "or") is
+// the address of its schema and differs from run to run: the named type written
+// in the same file is reported instead (nothing for the file of the root schema).
+func nameOfTypeForError(name string, typ schema.Type, ss map[string]schema.Type) string {
+	if !isUnnamed(name) {
+		return name
+	}
+	owner := ""
+	for n, t := range ss {
+		if !isUnnamed(n) && t.RootFile() == typ.RootFile() && (owner == "" || n < owner) {
+			owner = n
+		}
+	}
+	return owner
+}
+
 func (c *checkSchema) checkType(name string, typ schema.Type, ss map[string]schema.Type) {
 	defer func() {
 		r := recover()
@@ -81,7 +98,7 @@ func (c *checkSchema) checkType(name string, typ schema.Type, ss map[string]sche
 			if documentError.Filename() == "" {
 				documentError.SetFile(typ.RootFile())
 			}
-			documentError.SetIncorrectUserType(name)
+			documentError.SetIncorrectUserType(nameOfTypeForError(name, typ, ss))
 			panic(documentError)
 		}
 
